@@ -66,7 +66,11 @@ type c07Case struct {
 	Prev *c07Case `json:"prev,omitempty"`
 	// Fields: the Restorer is NewRestorer() configured through its Path and Resolver fields
 	Fields bool `json:"fields,omitempty"`
-	LocalIs int    `json:"local_is"`                // -1 unrelated, else index of the path that is the local package
+	// Stale: File.Imports and the import declarations disagree, as after an edit by hand:
+	// "decls-removed" (the import declarations were deleted from Decls, File.Imports still lists them: the
+	// source then has no imports) | "imports-cleared" (File.Imports emptied, declarations untouched)
+	Stale   string `json:"stale,omitempty"`
+	LocalIs int    `json:"local_is"` // -1 unrelated, else index of the path that is the local package
 }
 
 func init() {
@@ -74,7 +78,7 @@ func init() {
 		ID:    "C07",
 		Level: "model_checking",
 		Rule: "every configuration: used-path set (32 subsets of 5 paths incl. two packages named x and one whose name differs from its path) x 12 existing import shapes (none, single, block, two blocks, cgo alone and cgo leading a group, aliases/blank/dot, commented groups, same path twice, alias equal to name, raw-string and escaped path literals) " +
-			"x FileRestorer.Alias override {none} + path x {new id, id of another package, the suffixed name a conflict would generate (x1), an alias another source import already uses, '.', '', '_'} (and a second simultaneous override on a later path: quick {new id equal to the first override's, name of another package}, thorough the whole alphabet) x resolver {exact, lacking unused paths} x local path {unrelated, equal to a used path}; the Restorer built by the constructor or configured through its fields; every shape also restored as the second file of a Restorer that restored another shape first (with and without an alias override there); references are path-carrying identifiers in call, type and composite-literal positions; " +
+			"x FileRestorer.Alias override {none} + path x {new id, id of another package, the suffixed name a conflict would generate (x1), an alias another source import already uses, '.', '', '_'} (and a second simultaneous override on a later path: quick {new id equal to the first override's, name of another package}, thorough the whole alphabet) x resolver {exact, lacking unused paths} x local path {unrelated, equal to a used path}; the Restorer built by the constructor or configured through its fields; trees whose File.Imports and import declarations disagree (declarations deleted by hand, File.Imports emptied); every shape also restored as the second file of a Restorer that restored another shape first (with and without an alias override there); references are path-carrying identifiers in call, type and composite-literal positions; " +
 			"oracle independent of updateImports: re-parse the output, rebuild the import table from its import declarations and the resolver map; binding of every reference, exact import set, distinct names, name preference override > source alias > resolved name (+ decimal suffix on conflict), " +
 			"stable order/comments when nothing is added, and go/types acceptance; state = configuration; non-trivial = configuration with at least one used path",
 		Assumptions: []string{"package i exports Fi/Ti/Vi so that a reference name identifies its package", "go/types (FakeImportC) is the acceptance oracle"},
@@ -120,6 +124,15 @@ func init() {
 								ctx.CountState(used != 0)
 								ctx.R.Transitions++
 								ctx.Eval(cs, c07Check(cs))
+								if ovp < 0 && local < 0 && !missing {
+									for _, stale := range []string{"decls-removed", "imports-cleared"} {
+										st := cs
+										st.Stale = stale
+										ctx.CountState(used != 0)
+										ctx.R.Transitions++
+										ctx.Eval(st, c07Check(st))
+									}
+								}
 								if ovp < 0 {
 									cf := cs
 									cf.Fields = true
@@ -185,6 +198,19 @@ func c07BuildFile(cs c07Case) (*dst.File, string) {
 			&dst.GenDecl{Tok: token.VAR, Specs: []dst.Spec{&dst.ValueSpec{Names: []*dst.Ident{dst.NewIdent(fmt.Sprintf("w%d", i))}, Values: []dst.Expr{&dst.CompositeLit{Type: id("T")}}}}},
 		)
 	}
+	switch cs.Stale {
+	case "decls-removed":
+		var keep []dst.Decl
+		for _, dcl := range f.Decls {
+			if gd, ok := dcl.(*dst.GenDecl); ok && gd.Tok == token.IMPORT {
+				continue
+			}
+			keep = append(keep, dcl)
+		}
+		f.Decls = keep
+	case "imports-cleared":
+		f.Imports = nil
+	}
 	return f, src
 }
 
@@ -229,6 +255,9 @@ func c07Check(cs c07Case) core.Outcome {
 		af, err := parser.ParseFile(token.NewFileSet(), "", "package a\n\n"+c07Shapes[cs.Shape].Src, parser.ImportsOnly)
 		if err != nil {
 			panic(err)
+		}
+		if cs.Stale == "decls-removed" {
+			af.Imports = nil // the tree handed to the restorer has no import declarations
 		}
 		for _, is := range af.Imports {
 			p, _ := strconv.Unquote(is.Path.Value)
